@@ -501,6 +501,10 @@ def _cast(it, self, args, kw):
 
 @handler("functools.update_wrapper", "update_wrapper")
 def _update_wrapper(it, self, args, kw):
+    # the one consequence that matters here: the wrapper class takes over __name__ of the wrapped class
+    a, b = args[0], args[1]
+    if isinstance(a, VClass) and isinstance(b, VClass) and a.info is not None and b.info is not None:
+        a.info.name = b.info.name
     return args[0]
 
 
@@ -1086,6 +1090,9 @@ def _uuid5(it, self, args, kw):
     if not (isinstance(ns, VLib) and ns.kind == "UUID"):
         it.raise_(AttributeError, "namespace has no attribute 'bytes'")
     s.note(it, "uuid.uuid5")
+    if isinstance(name, (VStr, VBytes)) and name.conc is not None and ns.f["bytes"].conc is not None:
+        from contracts.specs_native import UUID5 as _u5
+        return VLib("UUID", bytes=VBytes(_u5(ns.f["bytes"].conc, name.conc)))
     if isinstance(name, VStr):
         t = s.UUID5(ns.f["bytes"].e, name.e)
     elif isinstance(name, VBytes):
@@ -1476,6 +1483,9 @@ def _spec_hash(it, self, args, kw):
 def _spec_uuid5(it, self, args, kw):
     s = _s()
     ns, name = args
+    if ns.conc is not None and name.conc is not None:
+        from contracts.specs_native import UUID5 as _u5
+        return VBytes(_u5(ns.conc, name.conc))
     t = s.UUID5(ns.e, name.e) if isinstance(name, VStr) else s.UUID5B(ns.e, name.e)
     it.assume(z3.Length(t) == 16)
     return VBytes(t)
@@ -1653,6 +1663,7 @@ def _load_private_key(it, data, fmt):
     if not it.branch(KEY_OK(data.e)):
         it.raise_(ValueError, "Could not deserialize key data")
     kind, size = KEY_KINDS[it.choose(len(KEY_KINDS), "keykind")]
+    it.loaded_key_kinds = getattr(it, "loaded_key_kinds", []) + [(kind, size)]
     return VLib("PrivateKey", ktype=kind, key_size=VInt(size), data=data)
 
 
@@ -1778,3 +1789,199 @@ def _spec_key_kind(it, self, args, kw):
 @handler("spec.KEY_DATA")
 def _spec_key_data(it, self, args, kw):
     return args[0].f["data"]
+
+
+@handler("yaml.dump", "json.dumps")
+def _yaml_dump(it, self, args, kw):
+    """Only used for messages / dict keys of non-string keys; an unconstrained string unless the argument is concrete."""
+    v = args[0]
+    try:
+        from .verify import concretize
+        if _is_concrete(v):
+            import json
+            if self is None:
+                pass
+            return VStr(json.dumps(_to_native(v))) if True else None
+    except Exception:
+        pass
+    return it.fresh_str("dumped")
+
+
+def _is_concrete(v):
+    if isinstance(v, (VInt, VStr, VBool, VBytes)):
+        return v.conc is not None
+    if isinstance(v, VNone):
+        return True
+    if isinstance(v, (VList, VTuple)):
+        return all(_is_concrete(x) for x in v.items)
+    if isinstance(v, VDict):
+        return all(e.present is True and not isinstance(k, SymKey) and _is_concrete(e.value) for k, e in v.entries.items())
+    return False
+
+
+def _to_native(v):
+    if isinstance(v, (VInt, VStr, VBool, VBytes)):
+        return v.conc
+    if isinstance(v, VNone):
+        return None
+    if isinstance(v, VList):
+        return [_to_native(x) for x in v.items]
+    if isinstance(v, VTuple):
+        return tuple(_to_native(x) for x in v.items)
+    if isinstance(v, VDict):
+        return {k: _to_native(e.value) for k, e in v.entries.items()}
+    raise OutOfSubset("native conversion")
+
+
+@handler("json.loads")
+def _json_loads(it, self, args, kw):
+    import json
+    v = args[0]
+    if isinstance(v, VStr) and v.conc is not None:
+        try:
+            return mk(json.loads(v.conc))
+        except json.JSONDecodeError:
+            it.raise_(json.JSONDecodeError_ if False else _json_error(), "json")
+    if not isinstance(v, VStr):
+        it.raise_(TypeError, "the JSON object must be str, bytes or bytearray")
+    raise OutOfSubset("json.loads of a symbolic string")
+
+
+def _json_error():
+    import json
+    return json.JSONDecodeError
+
+
+# ---------------------------------------------------------------------------------------------
+# key generation / serialisation (ASSUMED: cryptography) — C15
+# ---------------------------------------------------------------------------------------------
+PUB_X = z3.Function("PUBKEY_X", BSort, I)
+PUB_Y = z3.Function("PUBKEY_Y", BSort, I)
+PUB_RAW = z3.Function("PUBKEY_RAW", BSort, BSort)
+PRIV_BYTES = z3.Function("PRIVATE_BYTES", BSort, S, BSort)  # key data, "<encoding>/<format>/<encryption>"
+PUB_BYTES = z3.Function("PUBLIC_BYTES", BSort, S, BSort)
+SERIAL_OK = z3.Function("SERIALIZATION_SUPPORTED", S, S, B_)  # key kind, "<encoding>/<format>..."
+_CURVES = {"SECP256R1": 256, "SECP384R1": 384, "SECP521R1": 521}
+
+
+def _curve_handler(name):
+    def h(it, self, args, kw):
+        return VLib("Curve", name=name, key_size=VInt(_CURVES[name]))
+    return h
+
+
+for _c in _CURVES:
+    HANDLERS["ec." + _c] = _curve_handler(_c)
+
+
+@handler("ec.generate_private_key")
+def _ec_generate(it, self, args, kw):
+    curve = args[0]
+    _s().note(it, "ec.generate_private_key (requires an EllipticCurve INSTANCE)")
+    if not (isinstance(curve, VLib) and curve.kind == "Curve"):
+        it.raise_(TypeError, "curve must be an EllipticCurve instance")
+    data = it.fresh_bytes("generated_key")
+    it.trace.append(("nondet", "keygen", data))
+    return VLib("PrivateKey", ktype="ec", key_size=curve.f["key_size"], data=data)
+
+
+@handler("Ed25519PrivateKey.generate")
+def _ed25519_generate(it, self, args, kw):
+    data = it.fresh_bytes("generated_key")
+    it.trace.append(("nondet", "keygen", data))
+    return VLib("PrivateKey", ktype="ed25519", key_size=VInt(256), data=data)
+
+
+@handler("Ed448PrivateKey.generate")
+def _ed448_generate(it, self, args, kw):
+    data = it.fresh_bytes("generated_key")
+    it.trace.append(("nondet", "keygen", data))
+    return VLib("PrivateKey", ktype="ed448", key_size=VInt(456), data=data)
+
+
+@handler("PrivateKey.public_key")
+def _pk_public(it, self, args, kw):
+    return VLib("PublicKey", ktype=self.f["ktype"], key_size=self.f["key_size"], data=self.f["data"])
+
+
+def _fmt_tag(args, kw):
+    parts = []
+    for a in list(args) + [kw[k] for k in sorted(kw)]:
+        if isinstance(a, VBuiltin):
+            parts.append(a.name.split(".")[-1])
+        elif isinstance(a, VLib):
+            parts.append(a.kind)
+        else:
+            parts.append(type(a).__name__)
+    return "/".join(parts)
+
+
+@handler("PrivateKey.private_bytes")
+def _pk_private_bytes(it, self, args, kw):
+    tag = _fmt_tag(args, kw)
+    if not it.branch(SERIAL_OK(z3.StringVal(self.f["ktype"]), z3.StringVal("private/" + tag))):
+        it.raise_(ValueError, "unsupported format combination")
+    return VBytes(PRIV_BYTES(self.f["data"].e, z3.StringVal(tag)))
+
+
+@handler("PublicKey.public_bytes")
+def _pub_public_bytes(it, self, args, kw):
+    tag = _fmt_tag(args, kw)
+    if tag == "Raw/Raw":
+        if self.f["ktype"] == "ec":
+            it.raise_(ValueError, "Raw encoding is not supported for EC keys")
+        t = PUB_RAW(self.f["data"].e)
+        n = 32 if self.f["ktype"] == "ed25519" else 57
+        it.assume(z3.Length(t) == n)
+        it.known_lens[t.sexpr()] = n
+        return VBytes(t)
+    if not it.branch(SERIAL_OK(z3.StringVal(self.f["ktype"]), z3.StringVal("public/" + tag))):
+        it.raise_(ValueError, "unsupported format combination")
+    return VBytes(PUB_BYTES(self.f["data"].e, z3.StringVal(tag)))
+
+
+@handler("PublicKey.public_numbers")
+def _pub_numbers(it, self, args, kw):
+    if self.f["ktype"] != "ec":
+        it.raise_(AttributeError, "'Ed25519PublicKey' object has no attribute 'public_numbers'")
+    ks = self.f["key_size"].conc
+    x, y = PUB_X(self.f["data"].e), PUB_Y(self.f["data"].e)
+    for v in (x, y):
+        it.assume(z3.And(v >= 0, v < 2 ** ks))
+    _s().note(it, "EllipticCurvePublicNumbers: 0 <= x, y < 2**key_size")
+    return VLib("PublicNumbers", x=VInt(x), y=VInt(y), key_size=self.f["key_size"])
+
+
+@handler("NoEncryption")
+def _noenc(it, self, args, kw):
+    return VLib("NoEncryption")
+
+
+@handler("spec.PUB_X")
+def _spec_pubx(it, self, args, kw):
+    return VInt(PUB_X(args[0].e))
+
+
+@handler("spec.PUB_Y")
+def _spec_puby(it, self, args, kw):
+    return VInt(PUB_Y(args[0].e))
+
+
+@handler("spec.PUB_RAW")
+def _spec_pubraw(it, self, args, kw):
+    return VBytes(PUB_RAW(args[0].e))
+
+
+@handler("spec.PRIV_BYTES")
+def _spec_privbytes(it, self, args, kw):
+    return VBytes(PRIV_BYTES(args[0].e, args[1].e))
+
+
+@handler("spec.PUB_BYTES")
+def _spec_pubbytes(it, self, args, kw):
+    return VBytes(PUB_BYTES(args[0].e, args[1].e))
+
+
+@handler("os.path.exists")
+def _os_path_exists(it, self, args, kw):
+    return VBool(_s().fs_exists(it, args[0]))
